@@ -123,7 +123,7 @@ func checkC12(p *Prog, r *Report) {
 						x, y = y, x
 					}
 					if x.Op == "const" && x.Name == "0" && y.IsCall("(sdk/x/nft/keeper.Keeper).GetTotalSupply") && len(y.Args) == 3 &&
-						e.Key != nil && len(e.Key.Args) == 1 && y.Args[2].Eq(e.Key.Args[0]) && Entails(e.Cond, a) {
+						rawKeyID(e.Key) != nil && y.Args[2].Eq(rawKeyID(e.Key)) && Entails(e.Cond, a) {
 						ok, wit = true, a.String()
 					}
 				}
